@@ -3,6 +3,7 @@ import MelModel.ApplyTx
 import MelModel.Lemmas.Batch
 import MelModel.SupplyDefs
 namespace Mel
+open Mel.BatchL
 
 /-! ### sums over lists -/
 
